@@ -138,12 +138,30 @@ def forbidden_scan(paths):
     return hits
 
 
-def lean_sources():
-    out = []
-    for d, _, fs in os.walk(os.path.join(LEAN, "Nice")):
-        out += [os.path.join(d, f) for f in fs if f.endswith(".lean")]
-    out.append(os.path.join(LEAN, "Main.lean"))
-    return sorted(out)
+def lean_sources(roots=None):
+    """Lean files in the import closure of `roots` (module names) restricted to this package.
+    Default roots: every Props module is NOT included — only what the given property module and the
+    driver (Main) import, so that unfinished work in unrelated files cannot break a check."""
+    if roots is None:
+        out = []
+        for d, _, fs in os.walk(os.path.join(LEAN, "Nice")):
+            out += [os.path.join(d, f) for f in fs if f.endswith(".lean")]
+        out.append(os.path.join(LEAN, "Main.lean"))
+        return sorted(out)
+    seen, todo = set(), list(roots)
+    while todo:
+        m = todo.pop()
+        if m in seen:
+            continue
+        path = os.path.join(LEAN, *m.split(".")) + ".lean"
+        if not os.path.exists(path):
+            continue
+        seen.add(m)
+        for line in open(path):
+            mm = re.match(r"\s*(?:public\s+)?import\s+([\w.]+)", line)
+            if mm and (mm.group(1).startswith("Nice.") or mm.group(1) in ("Nice", "Main")):
+                todo.append(mm.group(1))
+    return sorted(os.path.join(LEAN, *m.split(".")) + ".lean" for m in seen)
 
 
 def audit_axioms(module, theorems, tag):
@@ -387,7 +405,7 @@ def std_pipeline(chk, module, theorems, gen_kernels=(), thorough_leanchecker=Tru
         chk.note("lake build failed: " + "\n".join(l for l in log2.splitlines() if "error" in l)[:1500])
         chk.cov["discharged"] = 0
     else:
-        hits = forbidden_scan(lean_sources())
+        hits = forbidden_scan(lean_sources([module, "Main"]))
         ok3, axioms, alog = audit_axioms(module, theorems, chk.prop)
         cmds.append(f"lake env lean build/audit/Audit_{chk.prop}.lean   # #print axioms")
         chk.cov["axioms"] = axioms
